@@ -408,4 +408,325 @@ theorem mtrans_deliverN (fuel nx : Nat) (c : Cl) (e : Ev) :
     rw [hid, hm] at this
     exact this
 
+/-! ### the message id named by a dedup record
+
+  An own event re-validates the row its dedup record names.  For the frame of a whole delivery list one needs to know
+  that the record of an own event that names NO message (an own commit: `OwnCommit.record`) keeps naming none. -/
+
+theorem recMid_setRec_self (c : Cl) (n : Nat) (r : Rec) : recMid (setRec c n r) n = r.mid := by
+  simp [recMid, getRec, setRec, alookup_ainsert_self]
+
+theorem recMid_recordFailure_self (c : Cl) (n : Nat) (b : Bool) (ep : Option Nat) :
+    recMid (recordFailure c n b ep) n = recMid c n := by
+  unfold recordFailure
+  rw [recMid_setRec_self]
+  rfl
+
+theorem recMid_ownMessage (c : Cl) (e : Ev) (h : recMid c e.n = none) : recMid (ownMessage c e).1 e.n = none := by
+  unfold ownMessage
+  cases hr : getRec c e.n with
+  | none => exact h
+  | some r =>
+    have hm : r.mid = none := by simpa [recMid, hr] using h
+    simp only [hm]
+    split
+    · exact h
+    · split
+      · exact h
+      · split
+        · exact h
+        · exact h
+
+theorem recMid_notBetterResult (c : Cl) (e : Ev) (h : recMid c e.n = none) : recMid (notBetterResult c e).1 e.n = none := by
+  unfold notBetterResult
+  split
+  · split
+    · exact h
+    · exact (recMid_recordFailure_self c e.n _ _).trans h
+  · exact (recMid_recordFailure_self c e.n _ _).trans h
+
+theorem recMid_processCommit (c : Cl) (e : Ev) (b : Body) (sw : List Nat) (h : recMid c e.n = none) :
+    recMid (processCommit c e b sw).1 e.n = none := by
+  unfold processCommit
+  split
+  · exact (recMid_recordFailure_self c e.n _ _).trans h
+  · dsimp only
+    split
+    · exact recMid_setRec_self _ _ _
+    · exact recMid_setRec_self _ _ _
+
+theorem recMid_wrongEpochCommit (retry : Cl → Option (Cl × Res)) (c : Cl) (e : Ev) (ee : Nat) (h : recMid c e.n = none)
+    (hretry : ∀ c1 r, c1.id = c.id → recMid c1 e.n = none → retry c1 = some r → recMid r.1 e.n = none) :
+    recMid (wrongEpochCommit retry c e ee).1 e.n = none := by
+  unfold wrongEpochCommit
+  split
+  · split
+    · rename_i c1 hr
+      split
+      · rename_i r hrr
+        exact hretry c1 r (frame_rollbackTo 0 c c1 ee hr).id ((recMid_rollbackTo c c1 ee e.n hr).trans h) hrr
+      · exact recMid_notBetterResult c e h
+    · exact recMid_notBetterResult c e h
+  · exact recMid_notBetterResult c e h
+
+theorem recMid_step1 (retry : Cl → Option (Cl × Res)) (nx : Nat) (c : Cl) (e : Ev)
+    (hown : e.sender = c.id ∨ appMid e = none) (h : recMid c e.n = none)
+    (hretry : ∀ c1 r, c1.id = c.id → recMid c1 e.n = none → retry c1 = some r → recMid r.1 e.n = none) :
+    recMid (step1 retry nx c e).1 e.n = none := by
+  have hw : recMid (withSecret c) e.n = none := h
+  unfold step1
+  split
+  · exact (recMid_recordFailure_self c e.n _ _).trans h
+  · split
+    · exact (recMid_recordFailure_self c e.n _ _).trans h
+    simp only
+    split
+    · exact (recMid_recordFailure_self (withSecret c) e.n _ _).trans hw
+    · split
+      · -- commit
+        split
+        · exact recMid_wrongEpochCommit retry (withSecret c) e _ hw hretry
+        · split
+          · split
+            · exact recMid_setRec_self _ _ _
+            · exact recMid_ownMessage (withSecret c) e hw
+          · split
+            · exact (recMid_recordFailure_self (withSecret c) e.n _ _).trans hw
+            · exact recMid_processCommit (consume (withSecret c) e.cipher) e _ _ hw
+      · -- leave
+        split
+        · exact (recMid_recordFailure_self (withSecret c) e.n _ _).trans hw
+        · split
+          · exact recMid_ownMessage (withSecret c) e hw
+          · split
+            · exact (recMid_recordFailure_self (withSecret c) e.n _ _).trans hw
+            · split
+              · exact recMid_setRec_self _ _ _
+              · exact recMid_setRec_self _ _ _
+      · -- app
+        rename_i mid ts tok hk
+        split
+        · exact (recMid_recordFailure_self (withSecret c) e.n _ _).trans hw
+        · split
+          · exact (recMid_recordFailure_self (withSecret c) e.n _ _).trans hw
+          · split
+            · exact recMid_ownMessage (withSecret c) e hw
+            · rename_i hfor
+              rcases hown with x | x
+              · exact absurd x (by simpa using hfor)
+              · simp [appMid, hk] at x
+
+theorem recMid_deliverOnce (retry : Cl → Option (Cl × Res)) (nx : Nat) (c : Cl) (e : Ev)
+    (hown : e.sender = c.id ∨ appMid e = none) (h : recMid c e.n = none)
+    (hretry : ∀ c1 r, c1.id = c.id → recMid c1 e.n = none → retry c1 = some r → recMid r.1 e.n = none) :
+    recMid (deliverOnce retry nx c e).1 e.n = none := by
+  unfold deliverOnce
+  split
+  · split
+    · exact h
+    · exact recMid_step1 retry nx c e hown h hretry
+  · exact recMid_step1 retry nx c e hown h hretry
+
+/-- a dedup record that names no message keeps naming none, whatever is delivered — except a foreign application message
+    under the record's own event number (which files its message id there) -/
+theorem recMid_deliverN (fuel nx : Nat) (c : Cl) (e : Ev) (n : Nat)
+    (hown : e.n = n → e.sender = c.id ∨ appMid e = none) (h : recMid c n = none) :
+    recMid (deliverN fuel nx c e).1 n = none := by
+  by_cases hn : n = e.n
+  · subst hn
+    have hown' := hown rfl
+    clear hown
+    induction fuel generalizing c with
+    | zero => exact recMid_deliverOnce _ nx c e hown' h (by intro c1 r _ _ hr; cases hr)
+    | succ f ih =>
+      apply recMid_deliverOnce _ nx c e hown' h
+      intro c1 r hid hm hr
+      cases hr
+      exact ih c1 hm (by rw [hid]; exact hown')
+  · exact (frame_deliverN fuel nx c e n hn).recs (fun o => o.bind (·.mid) = none)
+      (fun o ho => by cases o with
+        | none => exact ho
+        | some r => simpa [rbRec_mid] using ho) h
+
+/-! ## §C  `process_message` on an application message: which handler runs -/
+
+/-- a foreign application message of the current or a retained past epoch, routed, opened by the outer layer, its
+    ratchet generation unused: `process_application_message` stores it -/
+theorem step1_app_store (retry : Cl → Option (Cl × Res)) (nx : Nat) (c : Cl) (e : Ev) (mid ts tok : Nat)
+    (hg : routes c e = true) (hact : c.g.active = true) (ho : outerOpens (withSecret c).g e = true)
+    (hk : e.kind = .app mid ts tok) (hle : epochOf e.path ≤ epochOf c.g.path)
+    (hpast : epochOf e.path < epochOf c.g.path → c.g.past.contains e.path = true)
+    (hf : (e.sender == c.id) = false) (hc : e.cipher ∉ c.g.consumed) :
+    step1 retry nx c e = storeApp (consume (withSecret c) e.cipher) e mid ts tok := by
+  have h1 : ¬ epochOf c.g.path < epochOf e.path := by omega
+  have h2 : ¬ (epochOf e.path < epochOf c.g.path ∧ ¬ e.path ∈ c.g.past) := by
+    intro ⟨a, b⟩; exact b (by simpa using hpast a)
+  unfold step1
+  simp only [consume]
+  simp [hg, hact, ho, hk, hf, hc]
+  rw [if_neg h1, if_neg h2]
+
+/-- … and when its ratchet generation was used already (a second offer): Unprocessable, a Failed record, nothing else -/
+theorem step1_app_dup (retry : Cl → Option (Cl × Res)) (nx : Nat) (c : Cl) (e : Ev) (mid ts tok : Nat)
+    (hg : routes c e = true) (hact : c.g.active = true) (ho : outerOpens (withSecret c).g e = true)
+    (hk : e.kind = .app mid ts tok) (hle : epochOf e.path ≤ epochOf c.g.path)
+    (hpast : epochOf e.path < epochOf c.g.path → c.g.past.contains e.path = true)
+    (hf : (e.sender == c.id) = false) (hc : e.cipher ∈ c.g.consumed) :
+    step1 retry nx c e = failUnprocessable (withSecret c) e := by
+  have h1 : ¬ epochOf c.g.path < epochOf e.path := by omega
+  have h2 : ¬ (epochOf e.path < epochOf c.g.path ∧ ¬ e.path ∈ c.g.past) := by
+    intro ⟨a, b⟩; exact b (by simpa using hpast a)
+  unfold step1
+  simp [hg, hact, ho, hk, hf, hc]
+
+/-- the dedup record of event number `n` does not block re-processing (absent, or neither Failed nor EpochInvalidated) -/
+def NotBlocked (c : Cl) (n : Nat) : Prop := ∀ r, getRec c n = some r → r.state ≠ 3 ∧ r.state ≠ 4
+
+theorem notBlocked_of_none {c : Cl} {n : Nat} (h : getRec c n = none) : NotBlocked c n := by
+  intro r hr; rw [h] at hr; cases hr
+
+theorem deliverOnce_notBlocked (retry : Cl → Option (Cl × Res)) (nx : Nat) (c : Cl) (e : Ev) (h : NotBlocked c e.n) :
+    deliverOnce retry nx c e = step1 retry nx c e := by
+  unfold deliverOnce
+  cases hr : getRec c e.n with
+  | none => rfl
+  | some r =>
+    obtain ⟨h3, h4⟩ := h r hr
+    simp [h3, h4]
+
+theorem updLast_eq (g : GState) (m t : Nat) : ∃ l, updLast g m t = { g with last := l } := by
+  unfold updLast
+  split
+  · exact ⟨_, rfl⟩
+  · split
+    · exact ⟨_, rfl⟩
+    · exact ⟨g.last, rfl⟩
+
+theorem core_ensureSecret (g : GState) : core (ensureSecret g) = core g := by
+  simp [core, dataOf]
+
+theorem outerOpens_congr (g g' : GState) (e : Ev) (hp : g'.path = g.path) (hs : g'.secrets = g.secrets) :
+    outerOpens g' e = outerOpens g e := by
+  unfold outerOpens; rw [hp, hs]
+
+theorem ensureSecret_fix (g : GState) (h : alookup (epochOf g.path) g.secrets ≠ none) : ensureSecret g = g := by
+  cases hq : alookup (epochOf g.path) g.secrets with
+  | none => exact absurd hq h
+  | some q => exact ensureSecret_of_some g q hq
+
+theorem ensureSecret_has (g : GState) : alookup (epochOf g.path) (ensureSecret g).secrets ≠ none := by
+  cases hq : alookup (epochOf g.path) g.secrets with
+  | none => rw [ensureSecret_of_none g hq]; simp [alookup_ainsert_self]
+  | some q => rw [ensureSecret_of_some g q hq, hq]; simp
+
+/-- what a stored application message leaves: the row upserted, the ratchet generation consumed, the current epoch's
+    exporter secret cached, the last-message pointer possibly moved, the event's dedup record Processed — and nothing else -/
+structure AppStored (c : Cl) (e : Ev) (row : MsgRow) (c' : Cl) : Prop where
+  id : c'.id = c.id
+  persistent : c'.persistent = c.persistent
+  retention : c'.retention = c.retention
+  maxPast : c'.maxPast = c.maxPast
+  hasGroup : c'.hasGroup = c.hasGroup
+  mgr : c'.mgr = c.mgr
+  msgs : c'.msgs = upsertRow row c.msgs
+  g : ∃ l, c'.g = { ensureSecret c.g with consumed := e.cipher :: c.g.consumed, last := l }
+  recs : ∀ n, n ≠ e.n → getRec c' n = getRec c n
+  record : getRec c' e.n = some { state := 1, epoch := some (epochOf c.g.path), hasGroup := true, mid := some row.mid }
+
+namespace AppStored
+variable {c c' : Cl} {e : Ev} {row : MsgRow}
+
+theorem path (h : AppStored c e row c') : c'.g.path = c.g.path := by
+  obtain ⟨l, hl⟩ := h.g; rw [hl]; exact ensureSecret_path c.g
+theorem core (h : AppStored c e row c') : Chain.core c'.g = Chain.core c.g := by
+  obtain ⟨l, hl⟩ := h.g; rw [hl]; exact core_ensureSecret c.g
+theorem active (h : AppStored c e row c') : c'.g.active = c.g.active := by
+  obtain ⟨l, hl⟩ := h.g; rw [hl]; exact ensureSecret_active c.g
+theorem recNid (h : AppStored c e row c') : c'.g.recNid = c.g.recNid := by
+  obtain ⟨l, hl⟩ := h.g; rw [hl]; exact ensureSecret_recNid c.g
+theorem nid (h : AppStored c e row c') : c'.g.nid = c.g.nid := by
+  obtain ⟨l, hl⟩ := h.g; rw [hl]; exact ensureSecret_nid c.g
+theorem past (h : AppStored c e row c') : c'.g.past = c.g.past := by
+  obtain ⟨l, hl⟩ := h.g; rw [hl]; exact (ensureSecret_fields c.g).2.2.2.2.2.2.2.2.2.2.2
+theorem secrets (h : AppStored c e row c') : c'.g.secrets = (ensureSecret c.g).secrets := by
+  obtain ⟨l, hl⟩ := h.g; rw [hl]
+theorem consumed (h : AppStored c e row c') : c'.g.consumed = e.cipher :: c.g.consumed := by
+  obtain ⟨l, hl⟩ := h.g; rw [hl]
+theorem fix (h : AppStored c e row c') : ensureSecret c'.g = c'.g := by
+  apply ensureSecret_fix
+  rw [h.path, h.secrets]
+  exact ensureSecret_has c.g
+theorem secretsOK (h : AppStored c e row c') (hs : SecretsOK c.g) : SecretsOK c'.g := by
+  intro ep q hq
+  rw [h.secrets] at hq
+  rw [h.path]
+  have := secretsOK_ensure c.g hs ep q hq
+  rwa [ensureSecret_path] at this
+
+end AppStored
+
+theorem storeApp_stored (c : Cl) (e : Ev) (mid ts tok : Nat) :
+    AppStored c e { mid := mid, author := e.sender, state := 1, epoch := epochOf c.g.path, wrapper := e.n, msgTs := ts, tok := tok }
+      (storeApp (consume (withSecret c) e.cipher) e mid ts tok).1 := by
+  obtain ⟨l, hl⟩ := updLast_eq (consume (withSecret c) e.cipher).g mid ts
+  refine ⟨rfl, rfl, rfl, rfl, rfl, rfl, ?_, ⟨l, ?_⟩, ?_, ?_⟩
+  · show upsertRow _ c.msgs = _
+    simp only [consume, withSecret_path]
+  · show updLast (consume (withSecret c) e.cipher).g mid ts = _
+    rw [hl]
+    simp only [consume, withSecret, ensureSecret_consumed]
+  · intro n hn
+    simp only [storeApp, getRec, setRec]
+    exact alookup_ainsert_ne _ _ _ _ hn
+  · simp only [storeApp, getRec, setRec, consume, withSecret_path]
+    exact alookup_ainsert_self _ _ _
+
+/-- **a fresh application message is stored** (every fuel): the hypotheses name exactly the tests of
+    `process_message` — not blocked by its dedup record, routed by its `h` tag, the group active, the outer layer opens
+    it, created in the current epoch or a retained past one, by somebody else, its ratchet generation unused -/
+theorem deliverN_app_store (fuel nx : Nat) (c : Cl) (e : Ev) (mid ts tok : Nat)
+    (hnb : NotBlocked c e.n) (hg : routes c e = true) (hact : c.g.active = true)
+    (ho : outerOpens (ensureSecret c.g) e = true)
+    (hk : e.kind = .app mid ts tok) (hle : epochOf e.path ≤ epochOf c.g.path)
+    (hpast : epochOf e.path < epochOf c.g.path → c.g.past.contains e.path = true)
+    (hf : e.sender ≠ c.id) (hc : e.cipher ∉ c.g.consumed) :
+    deliverN fuel nx c e = storeApp (consume (withSecret c) e.cipher) e mid ts tok := by
+  obtain ⟨retry, hd⟩ := deliverN_once fuel nx c e
+  rw [hd, deliverOnce_notBlocked retry nx c e hnb,
+    step1_app_store retry nx c e mid ts tok hg hact ho hk hle hpast (by simpa using hf) hc]
+
+/-- a second offer of a stored application message: Unprocessable; it only overwrites its own dedup record (Failed)
+    and caches the exporter secret; a blocked one changes nothing at all -/
+theorem deliverN_app_dup (fuel nx : Nat) (c : Cl) (e : Ev) (mid ts tok : Nat)
+    (hg : routes c e = true) (hact : c.g.active = true)
+    (ho : outerOpens (ensureSecret c.g) e = true)
+    (hk : e.kind = .app mid ts tok) (hle : epochOf e.path ≤ epochOf c.g.path)
+    (hpast : epochOf e.path < epochOf c.g.path → c.g.past.contains e.path = true)
+    (hf : e.sender ≠ c.id) (hc : e.cipher ∈ c.g.consumed) :
+    (deliverN fuel nx c e).2 = .unprocessable ∧ Quiet e.n c (deliverN fuel nx c e).1 := by
+  obtain ⟨retry, hd⟩ := deliverN_once fuel nx c e
+  rw [hd]
+  by_cases hnb : NotBlocked c e.n
+  · rw [deliverOnce_notBlocked retry nx c e hnb,
+      step1_app_dup retry nx c e mid ts tok hg hact ho hk hle hpast (by simpa using hf) hc]
+    refine ⟨rfl, rfl, rfl, rfl, rfl, rfl, Or.inr rfl, rfl, rfl, ?_⟩
+    intro m hm
+    simp only [failUnprocessable, getRec, recordFailure, setRec]
+    exact alookup_ainsert_ne _ _ _ _ hm
+  · unfold NotBlocked at hnb
+    cases hr : getRec c e.n with
+    | none => exact absurd (fun r h => by rw [hr] at h; cases h) hnb
+    | some r =>
+      have h34 : r.state = 3 ∨ r.state = 4 := by
+        by_cases h3 : r.state = 3
+        · exact Or.inl h3
+        · by_cases h4 : r.state = 4
+          · exact Or.inr h4
+          · exact absurd (fun r' h => by rw [hr] at h; cases h; exact ⟨h3, h4⟩) hnb
+      constructor
+      · unfold deliverOnce
+        rcases h34 with h | h <;> simp [hr, h, hg]
+      · rw [deliverOnce_blocked retry nx c e r hr h34]
+        exact quiet_refl _ c
+
 end MdkVerif.ChainMsg
